@@ -542,6 +542,8 @@ func c02configs(tier string) []cfg {
 		// a re-run that was scheduled by a data change and is about to start when the unsubscribe is handled
 		cfg{Client: []string{"S:a:flag", "U:a", "E"}, Env: []string{"flag++"}, Deep: 3},
 		cfg{Client: []string{"S:a:flag", "U:a", "S:a:flag"}, Env: []string{"flag++"}, Deep: 3},
+		// ... and while a run that observes its cancellation is in flight (its failure closes the subscription by id)
+		cfg{Client: []string{"S:a:slow", "U:a", "S:a:flag"}, Env: []string{"flag++"}, Deep: 3},
 		cfg{Client: []string{"S:a:maybe", "M:m:5"}, Env: []string{"maybe-toggle"}},
 		cfg{Client: []string{"S:a:flag", "U:a", "S:a:items"}, Env: []string{"flag++"}},
 		cfg{Client: []string{"S:a:all"}, Env: []string{"insert", "maybe-toggle"}},
